@@ -203,6 +203,8 @@ func cmdCheck(args []string) int {
 			for _, f := range r.Flags {
 				cfg.Flags[f] = true
 			}
+			// wall-clock budget per harness instance: exceeding it is INCONCLUSIVE
+			cfg.Deadline = time.Now().Add(runBudget(tier))
 			defer func() {
 				if x := recover(); x != nil {
 					outs[i] = runOut{run: r, err: fmt.Errorf("engine panic: %v", x)}
@@ -971,4 +973,16 @@ func cmdEngineReplay(file string) int {
 	}
 	fmt.Println("NOT REPRODUCED (engine-concrete)")
 	return 0
+}
+
+func runBudget(tier string) time.Duration {
+	if v := os.Getenv("GOSYM_RUN_BUDGET_S"); v != "" {
+		if n, err := strconv.Atoi(v); err == nil && n > 0 {
+			return time.Duration(n) * time.Second
+		}
+	}
+	if tier == "thorough" {
+		return 40 * time.Minute
+	}
+	return 5 * time.Minute
 }
